@@ -215,6 +215,13 @@ func ruleTreeParent(c *Ctx) []Obligation {
 				}
 			}
 		}
+		// helper building an rpc body for an owner passed in: the RPCEntry is fresh and returned, the
+		// child's Parent is the entry parameter, and every caller stores the result into that entry's RPC
+		if !found && (l.kind == "RPC.Input" || l.kind == "RPC.Output") {
+			if w := c.rpcBodyHelper(l, m); w != "" {
+				found, witness = true, w
+			}
+		}
 		if found {
 			obs = append(obs, ok(R, con+" ["+shortPath(AccessPath(l.val))+"]", pos, witness))
 		} else {
@@ -222,6 +229,76 @@ func ruleTreeParent(c *Ctx) []Obligation {
 		}
 	}
 	return obs
+}
+
+func (c *Ctx) rpcBodyHelper(l entryLink, m *entryModel) string {
+	al, isA := l.owner.(*ssa.Alloc)
+	if !isA || namedOf(al.Type().(*types.Pointer).Elem()) != m.rpcEntry {
+		return ""
+	}
+	// returned on every path that returns a non-nil *RPCEntry
+	returned := false
+	for _, b := range l.fn.Blocks {
+		if r, isR := b.Instrs[len(b.Instrs)-1].(*ssa.Return); isR {
+			for _, res := range r.Results {
+				if res == ssa.Value(al) {
+					returned = true
+				}
+			}
+		}
+	}
+	if !returned {
+		return ""
+	}
+	// child.Parent = p_i
+	idx := -1
+	for _, st := range storesToField(l.fn, m.fParent) {
+		_, _, childBase := fieldOf(st.Addr)
+		viaSlot := false
+		if ls, isStore := l.at.(*ssa.Store); isStore && AccessPath(childBase) == AccessPath(ls.Addr) {
+			viaSlot = true // nr.Input = x; nr.Input.Parent = owner
+		}
+		if !sameObject(childBase, l.val) && !viaSlot {
+			continue
+		}
+		for i := range l.fn.Params {
+			if isParamN(l.fn, st.Val, i) {
+				idx = i
+			}
+		}
+	}
+	if idx < 0 {
+		return ""
+	}
+	node := c.Graph().Nodes[l.fn]
+	if node == nil || len(node.In) == 0 {
+		return ""
+	}
+	for _, e := range node.In {
+		site := e.Site
+		if site == nil || site.Common().StaticCallee() != l.fn || site.Value() == nil {
+			return ""
+		}
+		args := site.Common().Args
+		if idx >= len(args) {
+			return ""
+		}
+		stored := false
+		for _, r := range refsOf(site.Value()) {
+			st, isS := r.(*ssa.Store)
+			if !isS || st.Val != ssa.Value(site.Value()) {
+				continue
+			}
+			_, f, base := fieldOf(st.Addr)
+			if f == m.fRPC && (sameObject(base, args[idx]) || AccessPath(base) == AccessPath(args[idx])) {
+				stored = true
+			}
+		}
+		if !stored {
+			return ""
+		}
+	}
+	return fmt.Sprintf("helper: child.Parent = parameter %d, the fresh rpc body is returned, and every caller (%d) stores it into that same entry's RPC", idx, len(node.In))
 }
 
 func ruleTreeKey(c *Ctx) []Obligation {
@@ -732,6 +809,31 @@ func (c *Ctx) entryWalkers() []walker {
 		}
 		if !desc["Entry.Dir"] {
 			continue
+		}
+		// recursion through a helper: fn calls g (same package), g calls fn back on a value loaded
+		// from a link field of what it was given
+		for _, ci := range callsIn(fn, func(ssa.CallInstruction) bool { return true }) {
+			g := ci.Common().StaticCallee()
+			if g == nil || g == fn || g.Blocks == nil || g.Pkg != fn.Pkg {
+				continue
+			}
+			for _, back := range c.callsTo(g, fn) {
+				args, _ := c.carrierArgs(fn, back)
+				for _, a := range args {
+					if !containsEntry(a.Type(), m.entry) {
+						continue
+					}
+					backSlice(a, func(x ssa.Value) bool {
+						if owner, f, _ := fieldOf(x); f != nil {
+							switch f {
+							case m.fDir, m.fIn, m.fOut, m.fAugs, m.fDeviate, m.fDeviations:
+								desc[fieldKey(owner, f)] = true
+							}
+						}
+						return true
+					})
+				}
+			}
 		}
 		w := walker{fn: fn, descends: desc, class: "other"}
 		switch {
